@@ -11,6 +11,9 @@
  *                                       e = max |Q^H Q - I| entry, max |Q R - A| entry)
  *   ztoyn|ytozn n <M>                -> <op> x= ...
  *   stozn|ztosn|stoyn|ytosn n <M> <z0: n> -> <op> x= ...
+ *   add_a <a: 2*2> <b: 2*2>          -> add_a rc=<r> callbacks=<n> category=<c>
+ *        (vnacal_new_add_through on a 2x2 T8 calibration with one frequency, `a` and `b`
+ *         given: the a/b -> m reduction through the public API)
  * All values are printed with %a so that the check can read them back exactly.
  */
 #include <complex.h>
@@ -19,6 +22,7 @@
 #include <stdlib.h>
 #include <string.h>
 #include <vnaconv.h>
+#include <vnacal.h>
 #include "vnacommon_internal.h"
 
 typedef double complex cx;
@@ -37,6 +41,9 @@ static void pmat(const cx *m, int n)
     for (int i = 0; i < n; ++i)
 	printf(" %a %a", creal(m[i]), cimag(m[i]));
 }
+
+static int eh_calls, eh_cat;
+static void eh(const char *msg, void *arg, vnaerr_category_t cat) { (void)msg; (void)arg; ++eh_calls; eh_cat = (int)cat; }
 
 int main(void)
 {
@@ -115,6 +122,19 @@ int main(void)
 	    else vnaconv_ytosn(m, out, z0, n);
 	    printf("%s x=", op); pmat(out, n * n); printf("\n");
 	    free(m); free(z0); free(out);
+	} else if (strcmp(op, "add_a") == 0) {
+	    cx *a = rmat(2, 2), *b = rmat(2, 2);
+	    double f[1] = { 1e9 };
+	    cx *ap[4] = { &a[0], &a[1], &a[2], &a[3] }, *bp[4] = { &b[0], &b[1], &b[2], &b[3] };
+	    eh_calls = 0; eh_cat = -1;
+	    vnacal_t *vcp = vnacal_create(eh, NULL);
+	    vnacal_new_t *vnp = vnacal_new_alloc(vcp, VNACAL_T8, 2, 2, 1);
+	    vnacal_new_set_frequency_vector(vnp, f);
+	    int rc = vnacal_new_add_through(vnp, ap, 2, 2, bp, 2, 2, 1, 2);
+	    printf("add_a rc=%d callbacks=%d category=%s\n", rc, eh_calls,
+		    eh_cat == (int)VNAERR_MATH ? "MATH" : eh_cat == -1 ? "none" : "other");
+	    vnacal_new_free(vnp); vnacal_free(vcp);
+	    free(a); free(b);
 	} else {
 	    printf("unknown %s\n", op);
 	    return 2;
